@@ -55,7 +55,23 @@ def literal(ctx, modname, node):
     if isinstance(node, ast.Constant):
         return [node.value]
     if isinstance(node, ast.Name):
-        return sorted(const_set(ctx, modname, node.id), key=repr)
+        try:
+            return sorted(const_set(ctx, modname, node.id), key=repr)
+        except AnalysisError:
+            # a module-level literal of another shape (tuple of pairs, dict, ...): evaluate its single assignment
+            vals = [st.value for st in ctx.repo.module(modname).tree.body
+                    if isinstance(st, ast.Assign) and len(st.targets) == 1 and isinstance(st.targets[0], ast.Name)
+                    and st.targets[0].id == node.id]
+            if len(vals) != 1:
+                raise
+            return literal(ctx, modname, vals[0])
+    if isinstance(node, ast.Call) and isinstance(node.func, ast.Name) and node.func.id == 'dict' and len(node.args) == 1 \
+            and not node.keywords:
+        # dict(<pairs>) / dict(<mapping>)
+        outs = []
+        for v in literal(ctx, modname, node.args[0]):
+            outs.append(dict(v))
+        return outs
     if isinstance(node, ast.Dict):
         outs = [{}]
         for k, v in zip(node.keys, node.values):
